@@ -22,8 +22,13 @@ GL = {
     "ka-deva": 0x915, "ta-deva": 0x924, "period": 0x2E, "acutecomb": 0x301, "gravecomb": 0x300,
     "fatha-ar": 0x64E, "anusvara-deva": 0x902, "f_i": None,
     "apostrophemod": 0x2BC,  # script extension spans Latn, Cyrl, ... : usable in several scripts
+    # scripts whose OpenType tag is shorter than four letters, and a script that shares its kerning
+    # bucket with another (Hira/Kana)
+    "ko-lao": 0x0E81, "kho-lao": 0x0E82, "maikan-lao": 0x0EB1,
+    "na-nko": 0x07CA, "nb-nko": 0x07CB, "tone-nko": 0x07EB,
+    "a-kana": 0x30A2, "i-kana": 0x30A4,
 }
-MARKS = {"acutecomb", "gravecomb", "fatha-ar", "anusvara-deva"}
+MARKS = {"acutecomb", "gravecomb", "fatha-ar", "anusvara-deva", "maikan-lao", "tone-nko"}
 MIXES = {
     "latn": ["a", "b", "period", "acutecomb", "gravecomb", "f_i"],
     "latn+cyrl": ["a", "b", "A-cy", "Be-cy", "apostrophemod", "period", "acutecomb", "gravecomb"],
@@ -33,9 +38,19 @@ MIXES = {
     # Latin font that also contains (but does not export) Cyrillic glyphs, and kerns U+02BC
     "latn+skipcyrl": ["a", "b", "A-cy", "Be-cy", "apostrophemod", "period", "acutecomb", "gravecomb"],
 }
+# repertoires compiled with the SHORT_SCENARIOS statement lists only
+MIXES_SHORT = {
+    "lao": ["ko-lao", "kho-lao", "period", "maikan-lao"],
+    "nko": ["na-nko", "nb-nko", "period", "tone-nko"],
+    "kana": ["a-kana", "i-kana", "period", "acutecomb"],
+    "latn+lao": ["a", "b", "ko-lao", "kho-lao", "period", "acutecomb", "maikan-lao"],
+    "latn+kana": ["a", "b", "a-kana", "i-kana", "period", "acutecomb"],
+}
+MIXES.update(MIXES_SHORT)
 SKIPPED = {"latn+skipcyrl": ["A-cy", "Be-cy"]}
 LETTERS = {"latn": ("a", "b"), "cyrl": ("A-cy", "Be-cy"), "arab": ("alef-ar", "beh-ar"),
-           "deva": ("ka-deva", "ta-deva")}
+           "deva": ("ka-deva", "ta-deva"), "lao": ("ko-lao", "kho-lao"), "nko": ("na-nko", "nb-nko"),
+           "kana": ("a-kana", "i-kana")}
 LS_MENU = ["languagesystem DFLT dflt;", "languagesystem latn dflt;", "languagesystem latn TRK;",
            "languagesystem arab dflt;", "languagesystem dev2 dflt;"]
 # ordered statement lists that the subset menu cannot express: one script's statements interleaved
@@ -50,6 +65,16 @@ LS_SCENARIOS = {
     "dual-tag-old-only": ["languagesystem DFLT dflt;", "languagesystem dev2 dflt;", "languagesystem deva dflt;",
                           "languagesystem deva NEP;", "languagesystem latn dflt;"],
 }
+SHORT_SCENARIOS = {
+    "short-named": ["languagesystem DFLT dflt;", "languagesystem latn dflt;", "languagesystem lao dflt;",
+                    "languagesystem lao LAO;", "languagesystem nko dflt;", "languagesystem nko NKO;",
+                    "languagesystem kana dflt;", "languagesystem kana JAN;"],
+    "short-named-only": ["languagesystem DFLT dflt;", "languagesystem lao LAO;", "languagesystem nko NKO;",
+                         "languagesystem kana JAN;", "languagesystem latn TRK;"],
+    "short-dflt": ["languagesystem DFLT dflt;", "languagesystem lao dflt;", "languagesystem nko dflt;",
+                   "languagesystem kana dflt;"],
+}
+LS_SCENARIOS.update(SHORT_SCENARIOS)
 USER = {
     "none": "",
     "gsub": "feature liga { sub a b by f_i; } liga;\n",
@@ -220,7 +245,19 @@ class C20(Property):
 
     def initial(self, b):
         out = []
+        for mix in MIXES_SHORT:
+            for kern, anch, sc, user, fl in itertools.product(("script-only", "with-common"), ("mark", "mkmk", "curs"),
+                                                              SHORT_SCENARIOS, USER, b["flavours"]):
+                if make_spec(mix, kern, anch, sc, user) is None:
+                    continue
+                out.append([{"mix": mix, "kern": kern, "anch": anch, "ls": sc, "user": user, "flavour": fl}])
+                if user == "none" and fl == "ttf":
+                    out.append([{"mix": mix, "kern": kern, "anch": anch, "ls": sc, "user": user, "flavour": "vttf"}])
+                    out.append([{"mix": mix, "kern": kern, "anch": anch, "ls": sc, "user": user, "flavour": fl,
+                                 "writers": "legacy-kern2"}])
         for mix in MIXES:
+            if mix in MIXES_SHORT:
+                continue
             for kern in ("script-only", "with-common"):
                 for anch in ("mark", "mkmk", "curs"):
                     for ls in itertools.product((0, 1), repeat=len(LS_MENU)):
@@ -232,6 +269,8 @@ class C20(Property):
                                              "user": user, "flavour": fl}])
                                 if ls == (0, 0, 0, 0, 0):
                                     for sc in LS_SCENARIOS:
+                                        if sc in SHORT_SCENARIOS:
+                                            continue
                                         out.append([{"mix": mix, "kern": kern, "anch": anch, "ls": sc,
                                                      "user": user, "flavour": fl}])
                                 if fl == "ttf" and user == "none" and ls in ((0, 0, 0, 0, 0), (1, 1, 1, 0, 0),
@@ -241,6 +280,8 @@ class C20(Property):
                                                  "user": user, "flavour": "vttf"}])
                                     if ls == (0, 0, 0, 0, 0):
                                         for sc in LS_SCENARIOS:
+                                            if sc in SHORT_SCENARIOS:
+                                                continue
                                             out.append([{"mix": mix, "kern": kern, "anch": anch, "ls": sc,
                                                          "user": user, "flavour": "vttf"}])
                                 if ls in ((0, 0, 0, 0, 0), (1, 1, 1, 1, 1), (1, 1, 0, 0, 0), (0, 1, 1, 0, 1)):
@@ -312,7 +353,7 @@ class C20(Property):
                 pairs["kerning"] = [p for p in pairs.get("kerning", [])
                                     if p != ("period", "period") or c["kern"] == "with-common"]
             stmts = LS_SCENARIOS[c["ls"]] if isinstance(c["ls"], str) else [l for l, on in zip(LS_MENU, c["ls"]) if on]
-            declared = {(l.split()[1], l.split()[2].rstrip(";")) for l in stmts}
+            declared = {(l.split()[1].ljust(4), l.split()[2].rstrip(";")) for l in stmts}
             # scripts the font demonstrably supports: an EXPORTED glyph whose script extension is that
             # single script (how the writers themselves decide), or a languagesystem statement
             exported = set(tt.getGlyphOrder())
